@@ -45,13 +45,19 @@ impl FileCfg {
         )
     }
     pub fn builder(&self) -> grenad::WriterBuilder {
-        let mut b = Writer::builder();
+        // the three public ways to obtain a builder, in turn
+        let mut b = match (self.level as usize + self.levels as usize + self.block_size) % 3 {
+            0 => Writer::builder(),
+            1 => grenad::WriterBuilder::new(),
+            _ => grenad::WriterBuilder::default(),
+        };
         b.compression_type(self.codec).compression_level(self.level).index_levels(self.levels);
         if self.unclamped {
             b.verif_block_size_unclamped(self.block_size);
-        } else {
+        } else if self.block_size != 8192 {
             b.block_size(self.block_size);
         }
+        // (the default block size, 8192, is left to the builder: its setter is not called)
         if let Some(i) = self.interval {
             b.index_key_interval(NonZeroUsize::new(i).unwrap());
         }
